@@ -35,17 +35,46 @@ def run_inprocess(argv, stdin_lines):
     return {"status": status, "exc": exc, "out": out.getvalue(), "err": err.getvalue(), "consumed": fake.consumed}
 
 
-def run_subprocess(argv, stdin_lines, python=None, timeout=60, console_script=False):
+def run_subprocess(argv, stdin_lines, python=None, timeout=60, console_script=False, env_extra=None, plant=None):
+    """
+    env_extra: environment variables of the child (None value = unset); plant: (relative path, content) - the child runs in a
+    fresh directory that holds that file (a program that treats its arguments as file names would find it)
+    """
+    import shutil
+    import tempfile
     env = dict(os.environ)
     env["PYTHONPATH"] = runner.REPO
     env["PYTHONIOENCODING"] = "utf-8"
     env.pop("PYTHONHASHSEED", None)
+    for k, v in (env_extra or {}).items():
+        if v is None:
+            env.pop(k, None)
+        else:
+            env[k] = v
+    cwd, tmp = "/", None
+    if plant:
+        tmp = tempfile.mkdtemp(prefix="vfcwd")
+        try:
+            rel, content = plant
+            path = os.path.normpath(os.path.join(tmp, rel))
+            if not path.startswith(tmp + os.sep):
+                raise OSError("outside")
+            os.makedirs(os.path.dirname(path), exist_ok=True)
+            with open(path, "w") as f:
+                f.write(content)
+            cwd = tmp
+        except (OSError, ValueError, UnicodeError):
+            cwd = tmp          # not a usable file name: an empty directory is as good
     launcher = ["-m", "cvss.cvss_calculator"]
     if console_script:
         # what setup.py's console_scripts entry point generates
         launcher = ["-c", "import sys; from cvss.cvss_calculator import main; sys.argv[0] = 'cvss_calculator'; sys.exit(main())"]
-    p = subprocess.run([python or sys.executable] + launcher + list(argv),
-                       input=("".join(l + "\n" for l in (stdin_lines or []))).encode("utf-8"),
-                       stdout=subprocess.PIPE, stderr=subprocess.PIPE, env=env, timeout=timeout, cwd="/")
+    try:
+        p = subprocess.run([python or sys.executable] + launcher + list(argv),
+                           input=("".join(l + "\n" for l in (stdin_lines or []))).encode("utf-8"),
+                           stdout=subprocess.PIPE, stderr=subprocess.PIPE, env=env, timeout=timeout, cwd=cwd)
+    finally:
+        if tmp:
+            shutil.rmtree(tmp, ignore_errors=True)
     return {"status": p.returncode, "exc": None, "out": p.stdout.decode("utf-8", "replace"),
             "err": p.stderr.decode("utf-8", "replace")}
